@@ -515,3 +515,7 @@ impl StepEnvNumpy {
         py_data
     }
 }
+
+#[cfg(any(kani, verif_replay))]
+#[path = "/verif/harness/py_step_sim_numpy_proofs.rs"]
+pub(crate) mod verif_proofs;
